@@ -22,6 +22,8 @@ From MJ Require Import Common.Base C15.Vocab C15.Model C15.Spec.
      kind 12     "{{ (data|tojson)|length }}"   a container of the context with a tuple key: always fails
      kind 13     "{{ (data|string)|length }}"
      kind 14     "{{ 1 if q is kt(opt=1) else 0 }}"   the same as a test (test name 2)
+     kind 15     "{% autoescape M %}{{ site | site.n | site.go(1) }}{% endautoescape %}"   form p mod 3, M = (p / 3) mod 3 of
+                 none / html / json: the global `site` printed, asked for an attribute, called
      otherwise   renders p
    configuration c: bit 0 = trim_blocks, bit 1 = keep_trailing_newline.
    registry names: 0 = a custom name (absent in a new environment), 1 = a built-in (abs / odd / range), 2, 3 as above;
@@ -36,20 +38,61 @@ Definition ctmpl := (Z * Z)%type.
 Definition mode_code (m : cmode) : Z := match m with MTemplate c => c mod 4 | MExpr => -1 | MAnalysis => -2 end.
 Definition c_compile (m : cmode) (x : src) : cres ctmpl :=
   if x mod 16 =? 1 then CErr E_SyntaxError else COk (mode_code m, x).
+(* What the templates of kinds 8, 9 and 15 give for each value of the global `site` when rendered on their own
+   in a new environment (measured once on the engine; key = kind*1000 + (p mod 9)*20 + site code, site code 0 =
+   no such global, 1..3 the containers, 4..9 the objects that render a template themselves).  The nested
+   renders are invisible in it: an object that prints itself through an inner template gives the inner
+   template's output, whoever started the outer render. *)
+Definition c_site_table : list (Z * obs) :=
+  [
+   (8000, (0, 0)); (8001, (0, 44)); (8002, (0, 36)); (8003, (0, 14)); (8004, (0, 47)); (8005, (0, 47));
+   (8006, (0, 93)); (8007, (0, 93)); (8008, (0, 42)); (8009, (0, 42)); (9000, (0, 4)); (9001, (1, 3));
+   (9002, (0, 36)); (9003, (1, 3)); (9004, (0, 2)); (9005, (0, 2)); (9006, (0, 2)); (9007, (0, 2));
+   (9008, (0, 2)); (9009, (0, 2)); (15000, (3, 0)); (15001, (3, 44)); (15002, (3, 36)); (15003, (3, 14));
+   (15004, (3, 47)); (15005, (3, 47)); (15006, (3, 93)); (15007, (3, 93)); (15008, (3, 42)); (15009, (3, 42));
+   (15020, (1, 13)); (15021, (3, 0)); (15022, (3, 0)); (15023, (3, 0)); (15024, (0, 47)); (15025, (0, 47));
+   (15026, (0, 93)); (15027, (0, 93)); (15028, (0, 42)); (15029, (0, 42)); (15040, (1, 11)); (15041, (1, 11));
+   (15042, (1, 11)); (15043, (1, 11)); (15044, (0, 47)); (15045, (0, 47)); (15046, (0, 93)); (15047, (0, 93));
+   (15048, (0, 42)); (15049, (0, 42)); (15060, (3, 0)); (15061, (3, 84)); (15062, (3, 66)); (15063, (3, 14));
+   (15064, (3, 93)); (15065, (3, 93)); (15066, (3, 141)); (15067, (3, 141)); (15068, (3, 88)); (15069, (3, 88));
+   (15080, (1, 13)); (15081, (3, 0)); (15082, (3, 0)); (15083, (3, 0)); (15084, (0, 47)); (15085, (0, 47));
+   (15086, (0, 93)); (15087, (0, 93)); (15088, (0, 42)); (15089, (0, 42)); (15100, (1, 11)); (15101, (1, 11));
+   (15102, (1, 11)); (15103, (1, 11)); (15104, (0, 47)); (15105, (0, 47)); (15106, (0, 93)); (15107, (0, 93));
+   (15108, (0, 42)); (15109, (0, 42)); (15120, (3, 4)); (15121, (1, 14)); (15122, (3, 31)); (15123, (1, 14));
+   (15124, (3, 2)); (15125, (3, 2)); (15126, (3, 2)); (15127, (3, 2)); (15128, (3, 2)); (15129, (3, 2));
+   (15140, (1, 13)); (15141, (3, 4)); (15142, (3, 4)); (15143, (3, 4)); (15144, (0, 47)); (15145, (0, 47));
+   (15146, (0, 93)); (15147, (0, 93)); (15148, (0, 42)); (15149, (0, 42)); (15160, (1, 11)); (15161, (1, 11));
+   (15162, (1, 11)); (15163, (1, 11)); (15164, (0, 47)); (15165, (0, 47)); (15166, (0, 93)); (15167, (0, 93));
+   (15168, (0, 42)); (15169, (0, 42))
+  ].
+Fixpoint c_assoc (k : Z) (l : list (Z * obs)) : obs :=
+  match l with
+  | [] => (9, 9)
+  | (k', v) :: r => if k' =? k then v else c_assoc k r
+  end.
+Definition site_code (r : option Z) : Z :=
+  match r with
+  | None => 0
+  | Some w => if w <? 4 then (if w =? 1 then 1 else if w =? 2 then 2 else 3) else 4 + (w - 4) mod 6
+  end.
+Definition c_site (k pm : Z) (r : option Z) : obs := c_assoc (k * 1000 + pm * 20 + site_code r) c_site_table.
+(* callables w >= 4 render an inner template (mode ((w-4)/3) mod 3) and add the length of its output *)
+Definition addend (w : Z) : Z :=
+  if w <? 4 then w else let m := ((w - 4) / 3) mod 3 in if m =? 0 then 47 else if m =? 1 then 93 else 42.
 Definition c_kwargs (q p : Z) (r : option Z) (missing : Z) (ok : Z) : obs :=
   match r with
   | None => o_err missing
   | Some w => if (q + w) mod 2 =? 1 then (0, ok) else o_err E_TooManyArguments
   end.
-Definition c_base (q t : Z) (regs : rk -> Z -> option Z) : obs :=
+Definition c_base (expr : bool) (q t : Z) (regs : rk -> Z -> option Z) : obs :=
   let k := t mod 16 in
   let p := t / 16 in
   if k =? 2 then o_err E_InvalidOperation
-  else if k =? 3 then match regs RF (p mod 2) with None => o_err E_UnknownFilter | Some w => (0, p / 2 + w) end
-  else if k =? 4 then match regs RT (p mod 2) with None => o_err E_UnknownTest | Some w => (0, (p / 2 + w) mod 2) end
-  else if k =? 5 then match regs RG (p mod 2) with None => o_err E_UnknownFunction | Some w => (0, p / 2 + w) end
-  else if k =? 8 then match regs RG 2 with None => (0, 0) | Some w => (0, if w =? 1 then 44 else if w =? 2 then 36 else 14) end
-  else if k =? 9 then match regs RG 2 with None => (0, 4) | Some w => if w =? 2 then (0, 36) else o_err E_InvalidOperation end
+  else if k =? 3 then match regs RF (p mod 2) with None => o_err E_UnknownFilter | Some w => (0, p / 2 + addend w) end
+  else if k =? 4 then match regs RT (p mod 2) with None => o_err E_UnknownTest | Some w => (0, (p / 2 + addend w) mod 2) end
+  else if k =? 5 then match regs RG (p mod 2) with None => o_err E_UnknownFunction | Some w => (0, p / 2 + addend w) end
+  else if (k =? 8) || (k =? 9) then c_site k 0 (regs RG 2)
+  else if k =? 15 then c_site 15 (if expr then p mod 3 else p mod 9) (regs RG 2)
   else if k =? 10 then c_kwargs q p (regs RG 3) E_UnknownFunction (p + 1)
   else if k =? 11 then c_kwargs q p (regs RF 2) E_UnknownFilter (p + 1)
   else if k =? 12 then o_err E_InvalidOperation
@@ -60,17 +103,19 @@ Definition c_render (rc : Z) (mt : ctmpl) (regs : rk -> Z -> option Z) : obs :=
   let (m, t) := mt in
   let k := t mod 16 in
   let q := rc mod 4 in
-  if m =? -2 then (0, if k =? 10 then 2 else if (k =? 5) || ((8 <=? k) && (k <=? 14)) then 1 else 0)
-  else if m =? -1 then c_base q t regs
+  if m =? -2 then (0, if k =? 10 then 2 else if (k =? 5) || ((8 <=? k) && (k <=? 15)) then 1 else 0)
+  else if m =? -1 then c_base true q t regs
   else
     let trim := m mod 2 =? 1 in
     let keep := 2 <=? m in
     let nl := ((k =? 6) && negb trim) || ((k =? 7) && keep && negb trim) in
-    let r := c_base q t regs in
+    let r := c_base false q t regs in
     let r := if nl && (fst r =? 0) then (5, snd r * 4 + 1) else r in
     if (rc / 4) mod 2 =? 1 then
       (* every write fails: the render ends with WriteFailure unless it fails before its first output *)
-      (if (fst r =? 1) && negb (k =? 2) then r else o_err E_WriteFailure)
+      (if (fst r =? 1) && negb (k =? 2) then r
+       else if (fst r =? 3) && (snd r =? 0) then (0, 0)   (* nothing to write: the render succeeds *)
+       else o_err E_WriteFailure)
     else r.
 (* loader closure l at time now: the source it returns changes with time *)
 Definition c_loader (l now n : Z) : lres :=
